@@ -82,6 +82,10 @@ def run(model, tier="quick"):
     from .base_refs import swap_sizing
     swap_sizing(res, model)      # the value algebra add_liquidity_by_value feeds with orientation-mapped values
     res.floor("obligations", len(res.obligations), 27)
+    from ..rules.fresh import fresh_rule
+    if "R-FRESH" not in res.rules:
+        res.rules.append("R-FRESH")
+    fresh_rule(model, res, scope=('demeter/uniswap/',))
     res.assumptions = ["the reference model in sa/props/uni_refs.py is orientation-symmetric by inspection (each arm pair is a mirror image)"]
     res.not_decided = ["the 1e-12 / 0.1% numerical agreement between mirrored runs (floating point / Decimal)",
                        "a mechanical mirror-duality proof of the reference itself"]
